@@ -254,6 +254,9 @@ pub struct Bounds {
     pub max_len: usize,
     /// longest chain the unverified duplicate-hash batches are derived from
     pub max_dup_len: usize,
+    /// longest chain the batches refused by try_from are derived from (reversed / doubled
+    /// element / mixed: this length; gap: this length + 1, so that one element can go)
+    pub max_inv_len: usize,
     pub depth: usize,
     pub max_states: usize,
     pub wall_cap: Duration,
@@ -287,26 +290,26 @@ pub fn static_ops(fx: &Fixture, bd: &Bounds) -> Vec<Op> {
     }
     // invalid batches that the real try_from must refuse
     push(&mut ops, vec![], "empty", vec![]);
-    for p in paths.iter().filter(|p| p.len() >= 2 && p.len() <= bd.max_len) {
+    for p in paths.iter().filter(|p| p.len() >= 2 && p.len() <= bd.max_inv_len) {
         let mut r = p.clone();
         r.reverse();
         push(&mut ops, r, "reversed", p.clone());
     }
-    for p in paths.iter().filter(|p| p.len() < bd.max_len) {
+    for p in paths.iter().filter(|p| p.len() < bd.max_inv_len) {
         for i in 0..p.len() {
             let mut d = p.clone();
             d.insert(i, p[i]);
             push(&mut ops, d, "dup-element", p.clone());
         }
     }
-    for p in paths.iter().filter(|p| p.len() >= 3) {
+    for p in paths.iter().filter(|p| p.len() >= 3 && p.len() <= bd.max_inv_len + 1) {
         for i in 1..p.len() - 1 {
             let mut g = p.clone();
             g.remove(i);
             push(&mut ops, g, "gap", p.clone());
         }
     }
-    for p in paths.iter().filter(|p| p.len() < bd.max_len) {
+    for p in paths.iter().filter(|p| p.len() < bd.max_inv_len) {
         let last = *p.last().unwrap();
         for y in uni.iter().filter(|y| y.h == last.h + 1 && !adjacent(last, **y)) {
             let mut m = p.clone();
@@ -711,16 +714,38 @@ fn fmt_headers(fx: &Fixture, v: Vec<ExtendedHeader>) -> String {
     format!("[{}]", v.iter().map(|h| fx.identify(h)).collect::<Vec<_>>().join(","))
 }
 
-/// The total observation: the answer of every query over the whole height / hash universe.
+/// The values behind an observation that the C21 invariant needs (the headers actually
+/// returned), recorded while observing so that the invariant costs no second round of queries.
+#[derive(Default)]
+pub struct Seen {
+    stored: Option<BTreeSet<u64>>,
+    by_height: BTreeMap<u64, ExtendedHeader>,
+    by_hash: BTreeMap<Hid, Option<ExtendedHeader>>,
+    has: BTreeMap<Hid, bool>,
+}
+
 pub async fn observe<S: Store>(s: &S, fx: &Fixture, extended: bool) -> Obs {
+    observe_seen(s, fx, extended, &mut Seen::default()).await
+}
+
+/// The total observation: the answer of every query over the whole height / hash universe.
+pub async fn observe_seen<S: Store>(s: &S, fx: &Fixture, extended: bool, seen: &mut Seen) -> Obs {
     let mut o: Obs = vec![];
-    o.push(("stored_ranges".into(), ans(call(s.get_stored_header_ranges()).await, fmt_ranges)));
+    let stored = call(s.get_stored_header_ranges()).await;
+    if let Ok(Ok(r)) = &stored {
+        seen.stored = heights_of(r).ok();
+    }
+    o.push(("stored_ranges".into(), ans(stored, fmt_ranges)));
     o.push(("sampled_ranges".into(), ans(call(s.get_sampled_ranges()).await, fmt_ranges)));
     o.push(("pruned_ranges".into(), ans(call(s.get_pruned_ranges()).await, fmt_ranges)));
     o.push(("head_height".into(), ans(call(s.head_height()).await, |h| h.to_string())));
     o.push(("get_head".into(), ans(call(s.get_head()).await, |h| fx.identify(&h))));
     for h in 0..=fx.n + 1 {
-        o.push((format!("get_by_height({h})"), ans(call(s.get_by_height(h)).await, |x| fx.identify(&x))));
+        let r = call(s.get_by_height(h)).await;
+        if let Ok(Ok(x)) = &r {
+            seen.by_height.insert(h, x.clone());
+        }
+        o.push((format!("get_by_height({h})"), ans(r, |x| fx.identify(&x))));
         o.push((format!("has_at({h})"), ans_bool(call(s.has_at(h)).await)));
         o.push((
             format!("get_sampling_metadata({h})"),
@@ -735,8 +760,12 @@ pub async fn observe<S: Store>(s: &S, fx: &Fixture, extended: bool) -> Obs {
     }
     for x in fx.universe() {
         let hash = fx.get(x).hash();
-        o.push((format!("get_by_hash({x})"), ans(call(s.get_by_hash(&hash)).await, |h| fx.identify(&h))));
-        o.push((format!("has({x})"), ans_bool(call(s.has(&hash)).await)));
+        let r = call(s.get_by_hash(&hash)).await;
+        seen.by_hash.insert(x, r.as_ref().ok().and_then(|r| r.as_ref().ok()).cloned());
+        o.push((format!("get_by_hash({x})"), ans(r, |h| fx.identify(&h))));
+        let r = call(s.has(&hash)).await;
+        seen.has.insert(x, matches!(r, Ok(true)));
+        o.push((format!("has({x})"), ans_bool(r)));
     }
     o.push(("get_by_hash(unknown)".into(), ans(call(s.get_by_hash(&fx.unknown_hash)).await, |h| fx.identify(&h))));
     o.push(("has(unknown)".into(), ans_bool(call(s.has(&fx.unknown_hash)).await)));
@@ -753,54 +782,56 @@ pub async fn observe<S: Store>(s: &S, fx: &Fixture, extended: bool) -> Obs {
     o
 }
 
-/// C21 state invariant, evaluated with real queries and the real `verify_adjacent`.
-pub async fn fork_free<S: Store>(s: &S, fx: &Fixture, backend: &str) -> Vec<(String, String)> {
+/// C21 state invariant on the headers the store actually returned (recorded in `seen`
+/// while observing; a stored header that is not a fixture header is looked up by its hash
+/// with an extra query), with the real `verify_adjacent`.
+pub async fn fork_free<S: Store>(s: &S, fx: &Fixture, backend: &str, seen: &Seen) -> Vec<(String, String)> {
     let mut v = vec![];
-    let stored = match call(s.get_stored_header_ranges()).await {
-        Ok(Ok(r)) => match heights_of(&r) {
-            Ok(set) => set,
-            Err(raw) => {
-                v.push((format!("{backend}-stored-ranges-unreadable"), raw));
-                return v;
-            }
-        },
-        other => {
-            v.push((format!("{backend}-stored-ranges-unreadable"), format!("{:?}", other.map(|r| r.map(|_| ())))));
-            return v;
-        }
+    let Some(stored) = &seen.stored else {
+        v.push((format!("{backend}-stored-ranges-unreadable"), "get_stored_header_ranges failed".into()));
+        return v;
     };
-    let mut prev: Option<ExtendedHeader> = None;
-    for h in stored {
-        let cur = match call(s.get_by_height(h)).await {
-            Ok(Ok(x)) => x,
-            other => {
-                v.push((
-                    format!("{backend}-stored-height-not-readable"),
-                    format!("height {h} is in the stored ranges but get_by_height({h}) = {:?}", other.map(|r| r.map(|x| fx.identify(&x)))),
-                ));
-                prev = None;
-                continue;
-            }
+    let uni = fx.universe();
+    let mut prev: Option<&ExtendedHeader> = None;
+    for &h in stored {
+        let Some(cur) = seen.by_height.get(&h) else {
+            v.push((
+                format!("{backend}-stored-height-not-readable"),
+                format!("height {h} is in the stored ranges but get_by_height({h}) returned no header"),
+            ));
+            prev = None;
+            continue;
         };
         if cur.height() != h {
-            v.push((format!("{backend}-header-at-wrong-height"), format!("get_by_height({h}) returned {} of height {}", fx.identify(&cur), cur.height())));
+            v.push((format!("{backend}-header-at-wrong-height"), format!("get_by_height({h}) returned {} of height {}", fx.identify(cur), cur.height())));
         }
-        match call(s.get_by_hash(&cur.hash())).await {
-            Ok(Ok(x)) if x == cur => {}
-            other => v.push((
-                format!("{backend}-hash-lookup-differs"),
-                format!("height {h} holds {} but get_by_hash of its hash = {:?}", fx.identify(&cur), other.map(|r| r.map(|x| fx.identify(&x)))),
-            )),
+        match uni.iter().find(|x| fx.get(**x).hash() == cur.hash()) {
+            Some(x) => {
+                let found = seen.by_hash.get(x).cloned().flatten();
+                if found.as_ref() != Some(cur) {
+                    v.push((
+                        format!("{backend}-hash-lookup-differs"),
+                        format!("height {h} holds {} but get_by_hash of its hash = {:?}", fx.identify(cur), found.map(|f| fx.identify(&f))),
+                    ));
+                }
+                if seen.has.get(x) != Some(&true) {
+                    v.push((format!("{backend}-hash-lookup-differs"), format!("height {h} holds {} but has(hash) is not true", fx.identify(cur))));
+                }
+            }
+            None => match call(s.get_by_hash(&cur.hash())).await {
+                Ok(Ok(x)) if &x == cur => {}
+                other => v.push((
+                    format!("{backend}-hash-lookup-differs"),
+                    format!("height {h} holds {} but get_by_hash of its hash = {:?}", fx.identify(cur), other.map(|r| r.map(|x| fx.identify(&x)))),
+                )),
+            },
         }
-        if !matches!(call(s.has(&cur.hash())).await, Ok(true)) {
-            v.push((format!("{backend}-hash-lookup-differs"), format!("height {h} holds {} but has(hash) is not true", fx.identify(&cur))));
-        }
-        if let Some(p) = &prev {
+        if let Some(p) = prev {
             if p.height() + 1 == h {
-                if let Err(e) = p.verify_adjacent(&cur) {
+                if let Err(e) = p.verify_adjacent(cur) {
                     v.push((
                         format!("{backend}-consecutive-stored-headers-not-linked"),
-                        format!("heights {} and {h} hold {} and {}: verify_adjacent: {e}", h - 1, fx.identify(p), fx.identify(&cur)),
+                        format!("heights {} and {h} hold {} and {}: verify_adjacent: {e}", h - 1, fx.identify(p), fx.identify(cur)),
                     ));
                 }
             }
@@ -901,58 +932,75 @@ fn drop_during_unwind<T>(v: T) {
     }));
 }
 
-/// A live pair of stores.
+/// A live pair of stores positioned at one state of the search, with what is needed to
+/// put them back to that state after an operation changed them: the in-memory store is
+/// re-cloned from the state's snapshot, the redb database is rolled back to an ephemeral
+/// redb savepoint taken right after opening (a reopen costs ~15 ms of redb allocator
+/// bookkeeping, a rollback well under one).
 pub struct Live {
     pub mem: Either,
     pub redb: Either,
     backend: ImageBackend,
+    db: Arc<redb::Database>,
+    savepoint: redb::Savepoint,
+    /// operations applied since the restore from the snapshot (for diagnostics)
+    since: Vec<Op>,
+    restore_verified: bool,
 }
 
 pub static OPEN_NS: [AtomicU64; 3] = [AtomicU64::new(0), AtomicU64::new(0), AtomicU64::new(0)];
 
-async fn open_redb(image: Pages) -> Result<(Either, ImageBackend), String> {
-    let t0 = std::time::Instant::now();
-    let backend = ImageBackend(Arc::new(Mutex::new(image)));
-    let db = redb::Database::builder()
-        .create_with_backend(backend.clone())
-        .map_err(|e| format!("redb open: {e}"))?;
-    let t1 = std::time::Instant::now();
-    let store = RedbStore::new(Arc::new(db)).await.map_err(|e| format!("RedbStore::new: {e}"))?;
-    OPEN_NS[0].fetch_add((t1 - t0).as_nanos() as u64, Ordering::Relaxed);
-    OPEN_NS[1].fetch_add(t1.elapsed().as_nanos() as u64, Ordering::Relaxed);
-    OPEN_NS[2].fetch_add(1, Ordering::Relaxed);
-    Ok((EitherStore::Right(store), backend))
-}
-
-// bench helpers (scratch)
-pub async fn bench_open(p: Pages) -> (Either, ImageBackend) {
-    open_redb(p).await.unwrap()
-}
-pub fn bench_drop_unwind(s: Either) {
-    drop_during_unwind(s)
-}
-impl ImageBackend {
-    pub fn snapshot(&self) -> Pages {
-        self.0.lock().unwrap().clone()
-    }
-}
-
 impl Live {
-    pub async fn fresh() -> Result<Live, String> {
-        let (redb, backend) = open_redb(Pages::default()).await?;
-        Ok(Live { mem: EitherStore::Left(InMemoryStore::new()), redb, backend })
+    async fn open(mem: InMemoryStore, image: Pages) -> Result<Live, String> {
+        let t0 = std::time::Instant::now();
+        let backend = ImageBackend(Arc::new(Mutex::new(image)));
+        let db = redb::Database::builder()
+            .create_with_backend(backend.clone())
+            .map_err(|e| format!("redb open: {e}"))?;
+        let db = Arc::new(db);
+        let t1 = std::time::Instant::now();
+        let store = RedbStore::new(db.clone()).await.map_err(|e| format!("RedbStore::new: {e}"))?;
+        let tx = db.begin_write().map_err(|e| format!("savepoint: {e}"))?;
+        let savepoint = tx.ephemeral_savepoint().map_err(|e| format!("savepoint: {e}"))?;
+        tx.abort().map_err(|e| format!("savepoint: {e}"))?;
+        OPEN_NS[0].fetch_add((t1 - t0).as_nanos() as u64, Ordering::Relaxed);
+        OPEN_NS[1].fetch_add(t1.elapsed().as_nanos() as u64, Ordering::Relaxed);
+        OPEN_NS[2].fetch_add(1, Ordering::Relaxed);
+        Ok(Live {
+            mem: EitherStore::Left(mem),
+            redb: EitherStore::Right(store),
+            backend,
+            db,
+            savepoint,
+            since: vec![],
+            restore_verified: false,
+        })
     }
-    /// Takes the snapshots (all operations have been awaited, so no transaction is open:
-    /// the image is what a process kill between two operations leaves; redb repairs it on
-    /// open) and discards the live objects.
-    pub async fn freeze(self) -> (Arc<Either>, Arc<Pages>) {
-        let Live { mem, redb, backend } = self;
-        let img = backend.0.lock().unwrap().clone();
-        drop_during_unwind(redb);
+
+    pub async fn fresh() -> Result<Live, String> {
+        Live::open(InMemoryStore::new(), Pages::default()).await
+    }
+
+    /// Snapshot of the current contents: the in-memory store is moved out (and replaced by
+    /// `mem_replacement`), the redb image is copied (all operations have been awaited, so
+    /// no transaction is open: the image is what a process kill between two operations
+    /// leaves; redb repairs it on open).
+    async fn snapshot(&mut self, mem_replacement: InMemoryStore) -> (Arc<Either>, Arc<Pages>) {
+        let mem = std::mem::replace(&mut self.mem, EitherStore::Left(mem_replacement));
+        let img = self.backend.0.lock().unwrap().clone();
         (Arc::new(mem), Arc::new(img))
     }
+
+    /// Rolls the redb database back to the state it was opened at.
+    fn rollback(&mut self) -> Result<(), String> {
+        let mut tx = self.db.begin_write().map_err(|e| format!("rollback: {e}"))?;
+        tx.restore_savepoint(&self.savepoint).map_err(|e| format!("rollback: {e}"))?;
+        tx.commit().map_err(|e| format!("rollback: {e}"))?;
+        Ok(())
+    }
+
     pub async fn discard(self) {
-        drop_during_unwind(self.redb);
+        drop_during_unwind(self);
     }
 }
 
@@ -968,6 +1016,8 @@ pub enum Which {
 
 /// A state of the search: snapshots of both stores, the model, cached observations.
 pub struct St {
+    /// unique id of this snapshot (key of the per-thread cache of live objects)
+    sid: u64,
     mem: Arc<Either>,
     redb: Arc<Pages>,
     pub model: Model,
@@ -987,6 +1037,11 @@ pub struct Env {
     pub extended_checked: AtomicU64,
     pub image_bytes_max: AtomicU64,
     pub machinery: Mutex<Option<String>>,
+    next_sid: AtomicU64,
+    pub thaws: AtomicU64,
+    pub reused: AtomicU64,
+    pub reruns: AtomicU64,
+    pub rollbacks: AtomicU64,
     /// cumulative nanoseconds: thaw, apply, observe, extended, c21, correction, freeze
     pub prof: [AtomicU64; 7],
 }
@@ -1007,6 +1062,11 @@ impl Env {
             extended_checked: AtomicU64::new(0),
             image_bytes_max: AtomicU64::new(0),
             machinery: Mutex::new(None),
+            next_sid: AtomicU64::new(1),
+            thaws: AtomicU64::new(0),
+            reused: AtomicU64::new(0),
+            reruns: AtomicU64::new(0),
+            rollbacks: AtomicU64::new(0),
             prof: Default::default(),
         }
     }
@@ -1031,19 +1091,20 @@ impl Env {
     }
 
     async fn thaw(&self, st: &St) -> Result<Live, String> {
+        self.thaws.fetch_add(1, Ordering::Relaxed);
         let mem = st.mem.left().expect("left").async_clone().await;
-        let (redb, backend) = open_redb((*st.redb).clone()).await?;
-        Ok(Live { mem: EitherStore::Left(mem), redb, backend })
+        Live::open(mem, (*st.redb).clone()).await
     }
 
     pub fn init(&self) -> (St, u64) {
         let r: Result<(St, u64), String> = block(async {
-            let live = Live::fresh().await?;
+            let mut live = Live::fresh().await?;
             let obs_mem = observe(&live.mem, &self.fx, false).await;
             let obs_redb = observe(&live.redb, &self.fx, false).await;
             let key = state_key(&obs_mem, &obs_redb);
-            let (mem, redb) = live.freeze().await;
-            Ok((St { mem, redb, model: Model::default(), obs_mem: Arc::new(obs_mem), obs_redb: Arc::new(obs_redb) }, key))
+            let (mem, redb) = live.snapshot(InMemoryStore::new()).await;
+            live.discard().await;
+            Ok((St { sid: 0, mem, redb, model: Model::default(), obs_mem: Arc::new(obs_mem), obs_redb: Arc::new(obs_redb) }, key))
         });
         match r {
             Ok(x) => x,
@@ -1052,26 +1113,109 @@ impl Env {
     }
 
     /// One transition on the real stores, with all three oracles.
+    ///
+    /// The live objects of a state are kept per thread between the operations on that
+    /// state (the engine runs the operations of one state back to back on one thread): an
+    /// operation that fails and leaves the total observation of both backends unchanged
+    /// leaves them as they are, any other outcome is followed by putting them back to the
+    /// state (see [`Live`]).  A violation seen on objects that already went through other
+    /// operations is re-run on a fresh restore of the snapshot before it is reported, so
+    /// every reported history replays from the empty store; if the fresh run is clean, the
+    /// earlier operations left an effect that no query shows, which is reported as a C20
+    /// violation of its own.
     pub fn step(&self, st: &St, op: &Op) -> Step<St> {
-        block(self.step_async(st, op))
+        block(async {
+            let cached = CACHE.with(|c| c.borrow_mut().take());
+            let live = match cached {
+                Some((sid, live)) if sid == st.sid => Some(live),
+                Some((_, stale)) => {
+                    stale.discard().await;
+                    None
+                }
+                None => None,
+            };
+            let since: Vec<Op> = live.as_ref().map(|l| l.since.clone()).unwrap_or_default();
+            let reused = !since.is_empty();
+            if reused {
+                self.reused.fetch_add(1, Ordering::Relaxed);
+            }
+            let mut out = self.step_on(st, op, live).await;
+            if reused && !out.all.is_empty() {
+                self.reruns.fetch_add(1, Ordering::Relaxed);
+                if let Some(l) = out.keep.take() {
+                    l.discard().await;
+                }
+                let mut fresh = self.step_on(st, op, None).await;
+                if fresh.all.is_empty() {
+                    fresh.all.push((
+                        Which::C20,
+                        "earlier-operations-left-an-effect-no-query-shows".into(),
+                        format!(
+                            "after the operations {} on this state (each failed without changing any query answer, or was undone by restoring the state) {op:?} misbehaves: {}; on a fresh restore of the same state it does not",
+                            serde_json::to_string(&since).unwrap_or_default(),
+                            out.all.iter().map(|v| v.2.clone()).collect::<Vec<_>>().join(" | ")
+                        ),
+                    ));
+                }
+                out = fresh;
+            }
+            if let Some(l) = out.keep.take() {
+                CACHE.with(|c| *c.borrow_mut() = Some((st.sid, l)));
+            }
+            let violations = out
+                .all
+                .into_iter()
+                .filter(|(w, _, _)| *w == self.which)
+                .map(|(_, k, what)| (k, what))
+                .collect();
+            Step { next: out.next, key: out.key, class: out.class, violations }
+        })
     }
 
-    async fn step_async(&self, st: &St, op: &Op) -> Step<St> {
+    /// Discards the live objects cached by this thread.
+    pub fn flush_cache(&self) {
+        if let Some((_, l)) = CACHE.with(|c| c.borrow_mut().take()) {
+            block(l.discard());
+        }
+    }
+
+    /// Puts the live objects back to the state `st` after an operation changed them.
+    async fn put_back(&self, st: &St, live: &mut Live) -> Result<(), String> {
+        live.mem = EitherStore::Left(st.mem.left().expect("left").async_clone().await);
+        live.rollback()?;
+        self.rollbacks.fetch_add(1, Ordering::Relaxed);
+        if !live.restore_verified {
+            // once per opened database: the rolled-back store answers as the state did
+            let obs = observe(&live.redb, &self.fx, false).await;
+            if let Some(d) = obs_diff(&st.obs_redb, &obs) {
+                return Err(format!("redb savepoint rollback did not restore the state: {d}"));
+            }
+            live.restore_verified = true;
+        }
+        Ok(())
+    }
+
+    async fn step_on(&self, st: &St, op: &Op, live: Option<Live>) -> Out {
         let fx = &self.fx;
         let mut all: Vec<(Which, String, String)> = vec![];
         let mut t = std::time::Instant::now();
-        let live = match self.thaw(st).await {
-            Ok(l) => l,
-            Err(e) => {
-                self.machinery(format!("cannot restore a snapshot: {e}"));
-                return Step {
-                    next: St { mem: st.mem.clone(), redb: st.redb.clone(), model: st.model.clone(), obs_mem: st.obs_mem.clone(), obs_redb: st.obs_redb.clone() },
-                    key: state_key(&st.obs_mem, &st.obs_redb),
-                    class: "machinery".into(),
-                    violations: vec![],
-                };
-            }
+        let mut live = match live {
+            Some(l) => l,
+            None => match self.thaw(st).await {
+                Ok(l) => l,
+                Err(e) => {
+                    self.machinery(format!("cannot restore a snapshot: {e}"));
+                    return Out {
+                        next: St { sid: st.sid, mem: st.mem.clone(), redb: st.redb.clone(), model: st.model.clone(), obs_mem: st.obs_mem.clone(), obs_redb: st.obs_redb.clone() },
+                        key: state_key(&st.obs_mem, &st.obs_redb),
+                        class: "machinery".into(),
+                        all: vec![],
+                        keep: None,
+                    };
+                }
+            },
         };
+        live.since.push(op.clone());
         self.lap(0, &mut t);
         let mut model = st.model.clone();
         let want = model.apply(fx, op);
@@ -1081,8 +1225,9 @@ impl Env {
         let got_mem = apply_real(&live.mem, fx, op).await;
         let got_redb = apply_real(&live.redb, fx, op).await;
         self.lap(1, &mut t);
-        let obs_mem = observe(&live.mem, fx, false).await;
-        let obs_redb = observe(&live.redb, fx, false).await;
+        let (mut seen_mem, mut seen_redb) = (Seen::default(), Seen::default());
+        let obs_mem = observe_seen(&live.mem, fx, false, &mut seen_mem).await;
+        let obs_redb = observe_seen(&live.redb, fx, false, &mut seen_redb).await;
         self.lap(2, &mut t);
         let want_obs = model.observe(fx, false);
         let key = state_key(&obs_mem, &obs_redb);
@@ -1126,8 +1271,8 @@ impl Env {
 
         self.lap(3, &mut t);
         // ---- C21: fork-free, hash-linked, hash index (every reached state)
-        for (name, s) in [("inmemory", &live.mem), ("redb", &live.redb)] {
-            for (k, what) in fork_free(s, fx, name).await {
+        for (name, s, seen) in [("inmemory", &live.mem, &seen_mem), ("redb", &live.redb, &seen_redb)] {
+            for (k, what) in fork_free(s, fx, name, seen).await {
                 all.push((Which::C21, k, what));
             }
         }
@@ -1155,54 +1300,61 @@ impl Env {
             _ => &[],
         };
         let both_failed = got_mem.failed() && got_redb.failed();
-        let mut next_snap: Option<(Arc<Either>, Arc<Pages>)> = None;
-        if both_failed && unchanged && want != Kind::Ok {
-            if !corrected.is_empty() {
-                // run the correction on the very objects that refused the bad batch
-                self.corrections.fetch_add(1, Ordering::Relaxed);
-                let fix = Op::Insert { batch: corrected.to_vec(), checked: true, shape: "corrected".into(), corrected: vec![] };
-                let mut m2 = st.model.clone();
-                let want2 = m2.apply(fx, &fix);
+        let mut dirty = !(both_failed && unchanged);
+        // the successor: the parent itself when nothing changed (same key, dropped by the
+        // engine's de-duplication), else a snapshot of the objects as they are now
+        let (mem, redb) = if dirty {
+            let parent_mem = st.mem.left().expect("left").async_clone().await;
+            live.snapshot(parent_mem).await
+        } else {
+            (st.mem.clone(), st.redb.clone())
+        };
+        if !dirty && want != Kind::Ok && !corrected.is_empty() {
+            self.corrections.fetch_add(1, Ordering::Relaxed);
+            let fix = Op::Insert { batch: corrected.to_vec(), checked: true, shape: "corrected".into(), corrected: vec![] };
+            let mut m2 = st.model.clone();
+            let want2 = m2.apply(fx, &fix);
+            if want2 == Kind::Ok {
+                // run the correction on the very objects that refused the bad batch (when
+                // the model refuses the correction too, e.g. its range is taken, there is
+                // nothing to demand here)
+                dirty = true;
+                self.corrections_accepted.fetch_add(1, Ordering::Relaxed);
                 let want2_obs = m2.observe(fx, false);
-                if want2 == Kind::Ok {
-                    self.corrections_accepted.fetch_add(1, Ordering::Relaxed);
-                }
                 for (name, s) in [("inmemory", &live.mem), ("redb", &live.redb)] {
                     let got2 = apply_real(s, fx, &fix).await;
-                    if want2 == Kind::Ok {
-                        if got2.kind != "ok" {
-                            all.push((
-                                Which::C20,
-                                format!("{name}-corrected-batch-refused"),
-                                format!("{name}: after the rejected batch, the corrected batch {corrected:?} failed with {} ({})", got2.kind, got2.detail),
-                            ));
-                        } else if let Some(d) = obs_diff(&want2_obs, &observe(s, fx, false).await) {
-                            all.push((
-                                Which::C20,
-                                format!("{name}-corrected-batch-wrong-state"),
-                                format!("{name}: after the rejected batch, the corrected batch went in but: {d}"),
-                            ));
-                        }
-                    } else if got2.kind != want2.as_str() {
+                    if got2.kind != "ok" {
                         all.push((
-                            Which::C19,
-                            format!("{name}-insert-result-{}-expected-{}", got2.kind, want2.as_str()),
-                            format!("{name}: corrected batch {corrected:?} returned {} ({}), the model says {}", got2.kind, got2.detail, want2.as_str()),
+                            Which::C20,
+                            format!("{name}-corrected-batch-refused"),
+                            format!("{name}: after the rejected batch, the corrected batch {corrected:?} failed with {} ({})", got2.kind, got2.detail),
+                        ));
+                    } else if let Some(d) = obs_diff(&want2_obs, &observe(s, fx, false).await) {
+                        all.push((
+                            Which::C20,
+                            format!("{name}-corrected-batch-wrong-state"),
+                            format!("{name}: after the rejected batch, the corrected batch went in but: {d}"),
                         ));
                     }
                 }
             }
-            // nothing changed: the successor is the parent (same key, dropped by dedup)
-            next_snap = Some((st.mem.clone(), st.redb.clone()));
         }
         self.lap(5, &mut t);
-        let (mem, redb) = match next_snap {
-            Some(x) => {
-                live.discard().await;
-                x
+        // keep the live objects for the next operation on this state
+        let mut keep = None;
+        if !all.is_empty() {
+            live.discard().await; // never continue on objects that misbehaved
+        } else if dirty {
+            match self.put_back(st, &mut live).await {
+                Ok(()) => keep = Some(live),
+                Err(e) => {
+                    self.machinery(e);
+                    live.discard().await;
+                }
             }
-            None => live.freeze().await,
-        };
+        } else {
+            keep = Some(live);
+        }
         self.lap(6, &mut t);
         self.image_bytes_max.fetch_max(redb.bytes() as u64, Ordering::Relaxed);
 
@@ -1211,17 +1363,50 @@ impl Env {
             op.name(),
             if got_mem.kind == "ok" { "ok".to_string() } else { format!("err:{}", got_mem.kind) }
         );
-        let violations = all
-            .into_iter()
-            .filter(|(w, _, _)| *w == self.which)
-            .map(|(_, k, what)| (k, what))
-            .collect();
-        Step {
-            next: St { mem, redb, model, obs_mem: Arc::new(obs_mem), obs_redb: Arc::new(obs_redb) },
+        Out {
+            next: St {
+                sid: self.next_sid.fetch_add(1, Ordering::Relaxed),
+                mem,
+                redb,
+                model,
+                obs_mem: Arc::new(obs_mem),
+                obs_redb: Arc::new(obs_redb),
+            },
             key,
             class,
-            violations,
+            all,
+            keep,
         }
+    }
+}
+
+struct Out {
+    next: St,
+    key: u64,
+    class: String,
+    all: Vec<(Which, String, String)>,
+    keep: Option<Live>,
+}
+
+thread_local! {
+    static CACHE: std::cell::RefCell<Option<(u64, Live)>> = const { std::cell::RefCell::new(None) };
+}
+
+unsafe extern "C" {
+    fn mallopt(param: i32, value: i32) -> i32;
+}
+
+/// redb builds ~1 MB vectors on every open (allocator state); with glibc's defaults each
+/// of them is mmap'ed / trimmed away again, and the page faults of 16 threads serialise on
+/// the process' mm lock (measured: 6-10x on the open).  Keep freed memory in the arenas.
+fn tune_malloc() {
+    const M_TRIM_THRESHOLD: i32 = -1;
+    const M_TOP_PAD: i32 = -2;
+    const M_MMAP_THRESHOLD: i32 = -3;
+    unsafe {
+        mallopt(M_MMAP_THRESHOLD, 32 << 20);
+        mallopt(M_TRIM_THRESHOLD, i32::MAX);
+        mallopt(M_TOP_PAD, 64 << 20);
     }
 }
 
@@ -1271,12 +1456,14 @@ pub const ASSUMPTIONS: &[&str] = &[
 ];
 
 pub fn run(id: &str, which: Which) -> ! {
+    tune_malloc();
     let ctx = Ctx::from_args(id);
     let quick = ctx.quick();
     let bd = Bounds {
         n: if quick { 5 } else { 6 },
         max_len: if quick { 3 } else { 4 },
         max_dup_len: if quick { 2 } else { 3 },
+        max_inv_len: if quick { 2 } else { 4 },
         depth: std::env::var("LV_STORE_DEPTH").ok().and_then(|s| s.parse().ok()).unwrap_or(if quick { 3 } else { 4 }),
         max_states: if quick { 200_000 } else { 2_000_000 },
         wall_cap: Duration::from_secs(if quick { 50 } else { 780 }),
@@ -1307,19 +1494,25 @@ pub fn run(id: &str, which: Which) -> ! {
         let (init, key) = env.init();
         let cfg = BfsConfig { max_depth: env.bd.depth, max_states: env.bd.max_states, wall_cap: env.bd.wall_cap, dedup: true };
         bfs(init, key, &cfg, |s| env.ops(s), |s, o| env.step(s, o), &mut rep);
+        rayon::broadcast(|_| env.flush_cache());
     }
+    env.flush_cache();
     if let Some(m) = env.machinery.lock().unwrap().clone() {
         machinery_error(&ctx.id, &m);
     }
     rep.extra("static_alphabet_size", json!(env.statics.len()));
     rep.extra("corrected_batches_tried", json!(env.corrections.load(Ordering::Relaxed)));
     rep.extra("corrected_batches_expected_ok", json!(env.corrections_accepted.load(Ordering::Relaxed)));
+    rep.extra("snapshot_restores", json!(env.thaws.load(Ordering::Relaxed)));
+    rep.extra("transitions_on_reused_live_objects", json!(env.reused.load(Ordering::Relaxed)));
+    rep.extra("savepoint_rollbacks", json!(env.rollbacks.load(Ordering::Relaxed)));
+    rep.extra("reruns_on_fresh_restore", json!(env.reruns.load(Ordering::Relaxed)));
     rep.extra("states_with_extended_get_range_queries", json!(env.extended_checked.load(Ordering::Relaxed)));
     rep.extra("redb_image_nonzero_bytes_max", json!(env.image_bytes_max.load(Ordering::Relaxed)));
     let prof: Vec<f64> = env.prof.iter().map(|a| a.load(Ordering::Relaxed) as f64 / 1e9).collect();
-    rep.extra("cpu_seconds_thaw_apply_observe_extended_c21_correction_freeze", json!(prof));
+    rep.extra("thread_seconds_thaw_apply_observe_extended_c21_correction_putback", json!(prof));
     if std::env::var("LV_STORE_PROF").is_ok() {
-        eprintln!("prof (s) thaw/apply/observe/extended/c21/correction/freeze: {prof:?}");
+        eprintln!("prof (s) thaw/apply/observe/extended/c21/correction/putback: {prof:?}");
         eprintln!(
             "open: db {:.3}s store-new {:.3}s count {}  image bytes max {}",
             OPEN_NS[0].load(Ordering::Relaxed) as f64 / 1e9,
